@@ -57,6 +57,32 @@ AS_IS = [("MC_Journal_AsIsMsg", "rows of one message committed one by one"),
          ("MC_Journal_AsIsDump", "rows of the initial dump committed one by one")]
 
 
+WD = None   # work directory of the run (classify looks the history of a case up in the monitor's chunks)
+
+
+def _soa_judged_against_unjournaled_serial(case_id):
+    """signed zone: start-up signing moves the serial by one without journaling it, so the live zone is
+    one ahead of what the journal replays from; an SOA update RR exactly 2^31 - 1 ahead of the live
+    serial is installed live and is at the undefined distance 2^31 (ignored) on replay"""
+    if WD is None:
+        return False
+    ev = c12.case_events(WD, case_id)
+    if not ev or not ev[0].get("signed"):
+        return False
+    apex = [bytes(lab).lower() for lab in ev[0]["apex"]]
+    cur = ev[0]["ser"][0] * 65536 + ev[0]["ser"][1]
+    for e in ev[1:]:
+        if e.get("ev") != "msg":
+            continue
+        for u in e["m"]["upd"]:
+            if u["c"] == "IN" and u["t"] == "SOA" and [bytes(lab).lower() for lab in u["o"]] == apex:
+                new = u["ser"][0] * 65536 + u["ser"][1]
+                if (new - (cur - 1)) % (1 << 32) == (1 << 31):
+                    return True
+        cur = e["ser"][0] * 65536 + e["ser"][1]
+    return False
+
+
 def classify(d):
     """-> (class, fields) for a MISMATCH report of Trace_Journal (kinds cut / cut2 / rerr / rmsg)."""
     kind = d.get("kind")
@@ -76,6 +102,8 @@ def classify(d):
             return "crash-inside-initial-dump", {"where": where}
         if where == "inside-message":
             return "crash-between-rows-of-one-message", {"where": where, "effect": effect}
+        if d["same_content"] and _soa_judged_against_unjournaled_serial(str(d["case"])):
+            return "signed-startup-serial-bump-not-journaled", {"where": where, "zone": "signed"}
         return "unclassified:recovery-at-message-boundary", {"where": where, "effect": effect}
     if kind == "rerr":
         return "unclassified:recovery-paths-disagree", {"err": str(d.get("event", {}).get("err", ""))[:60]}
@@ -112,7 +140,8 @@ def run(res, tier, seed):
         "messages reach the zone through verify_prerequisites / pre_scan / update_records(.., true), the sequence of "
         "SqliteZoneHandler::update without the TSIG check (C12 binds the full Catalog path)",
         "TLC 1.8.0; projection as in C12"]
-    wd = vlib.workdir("c14")
+    global WD
+    wd = WD = vlib.workdir("c14")
     with ThreadPoolExecutor(max_workers=1) as bg:
         mcf = bg.submit(_mc, wd)
         # ---- R
